@@ -229,3 +229,85 @@ func refusedAdminLane(c *ev.Ctx, cacheCfg string) {
 	mallory = root.With("mallory", "mallory-secret-1")
 	judge("after-restart")
 }
+
+// Aliased-name lane: a decision is taken for the object the request reaches. With Allow bkt/* and Deny bkt/secret/*
+// every way of writing the name of a denied object differently (empty path elements, leading slash) must either be
+// refused or reach another, harmless object - never the data of secret/x.
+func aliasedNameLane(c *ev.Ctx, sidecar bool) {
+	store := "xattr"
+	if sidecar {
+		store = "sidecar"
+	}
+	id := "n/aliased-names/" + store
+	if !c.Want(id) {
+		return
+	}
+	env, err := fx.New("c03n", gw.Config{Sidecar: sidecar}, 1)
+	if err != nil {
+		c.Inconclusive("gateway start (aliased-name lane): " + err.Error())
+		return
+	}
+	defer env.Close()
+	root := env.Client(0)
+	if r := env.CreateUser("alice", "alice-secret-1", "user", 0, 0); r.Status != 201 {
+		c.Inconclusive("create user: " + r.String())
+		return
+	}
+	alice := root.With("alice", "alice-secret-1")
+	const b = "aliased"
+	if r := root.CreateBucket(b); !r.OK() {
+		c.Inconclusive("create bucket: " + r.String())
+		return
+	}
+	const secret = "TOP-SECRET-aliased-7e1f"
+	root.PutObject(b, "secret/x", []byte(secret))
+	root.PutObject(b, "public/y", []byte("public data"))
+	pol := fmt.Sprintf(`{"Version":"2012-10-17","Statement":[{"Effect":"Allow","Principal":{"AWS":["alice"]},"Action":"s3:*","Resource":["arn:aws:s3:::%s","arn:aws:s3:::%s/*"]},{"Effect":"Deny","Principal":{"AWS":["alice"]},"Action":"s3:*","Resource":"arn:aws:s3:::%s/secret/*"}]}`, b, b, b)
+	if r := root.Sub("PUT", b, "", "policy=", []byte(pol)); !r.OK() {
+		c.Inconclusive("put policy: " + r.String())
+		return
+	}
+	// controls: the plain names behave as the policy says
+	if g := alice.GetObject(b, "public/y"); !g.OK() {
+		c.Inconclusive("control: allowed read refused: " + g.String())
+		return
+	}
+	if g := alice.GetObject(b, "secret/x"); g.Status < 400 {
+		c.Violation("aliased-name:plain-name:denied-object-read["+store+"]", id, map[string]any{"get": g.String()})
+		return
+	}
+	check := func(what string, r *s3c.Resp) {
+		c.Eval(1)
+		det := map[string]any{"attempt": what, "answer": r.String(), "policy": "Allow alice s3:* on aliased/*, Deny alice s3:* on aliased/secret/*"}
+		if r.Err == nil && strings.Contains(string(r.Body), secret) {
+			c.Violation("aliased-name:"+what+":denied-object-disclosed["+store+"]", id, det)
+			return
+		}
+		if g := root.GetObject(b, "secret/x"); !g.OK() || string(g.Body) != secret {
+			det["secret_object_now"] = g.String()
+			c.Violation("aliased-name:"+what+":denied-object-changed["+store+"]", id, det)
+			root.PutObject(b, "secret/x", []byte(secret))
+			return
+		}
+		// data copied somewhere alice can read it?
+		for _, k := range []string{"loot"} {
+			if g := root.GetObject(b, k); g.OK() && strings.Contains(string(g.Body), secret) {
+				det["copied_to"] = k
+				c.Violation("aliased-name:"+what+":denied-object-copied["+store+"]", id, det)
+				root.DeleteObject(b, k)
+				return
+			}
+		}
+		c.Distinct("aliased|" + what + "|" + store)
+	}
+	for _, name := range []string{"/secret/x", "secret//x", "/secret//x", "public/..//secret/x", "x//../secret/x", "//secret/x"} {
+		raw := "/" + b + "/" + name
+		check("get:"+name, alice.Do(&s3c.Req{Method: "GET", Path: raw, CanonPath: raw}))
+		check("head:"+name, alice.Do(&s3c.Req{Method: "HEAD", Path: raw, CanonPath: raw}))
+		check("copy-source:"+name, alice.Do(&s3c.Req{Method: "PUT", Path: s3c.ObjPath(b, "loot"), Header: s3c.H{{"X-Amz-Copy-Source", b + "/" + name}}}))
+		body := []byte(`<Delete xmlns="http://s3.amazonaws.com/doc/2006-03-01/"><Object><Key>` + s3c.XMLEsc(name) + `</Key></Object></Delete>`)
+		check("delete-objects:"+name, alice.Do(&s3c.Req{Method: "POST", Path: "/" + b, Query: "delete=", Body: body, Header: s3c.H{{"Content-MD5", s3c.MD5B64(body)}}}))
+		check("delete:"+name, alice.Do(&s3c.Req{Method: "DELETE", Path: raw, CanonPath: raw}))
+		check("put:"+name, alice.Do(&s3c.Req{Method: "PUT", Path: raw, CanonPath: raw, Body: []byte("overwritten by alice")}))
+	}
+}
